@@ -178,6 +178,7 @@ def merge(pieces, real):
     def emit_real(ts):
         for t in ts:
             out.append((t.ws if t.ws else " ") + t.text)
+        out.append(" ")     # never glue an inserted token to the kept token that follows
 
     for p in pieces:
         if p.tok is not None and not p.ghost:
